@@ -1,35 +1,147 @@
-// C23 harness: histories of AddLocationConf / DeleteLocationConf /
-// MatchStorageRule on the real filer.FilerConf.
+// C23 harness: histories of AddLocationConf / DeleteLocationConf / MatchStorageRule /
+// LoadFromBytes / ToText+LoadFromBytes / ToProto on the real filer.FilerConf.
 package main
 
 import (
+	"bytes"
 	"fmt"
+	"sort"
+	"strconv"
 	"strings"
+	"unicode/utf8"
 
 	"github.com/chrislusf/seaweedfs/weed/filer"
 	"github.com/chrislusf/seaweedfs/weed/pb/filer_pb"
+	"github.com/golang/protobuf/jsonpb"
 	"verifharness/hx"
 )
 
-var segs = []string{"a", "b", "ab"}
+// ---------- universes ----------
+// A universe produces location prefixes and paths.  All strings are valid UTF-8
+// (proto3 string fields; FilerConf_PathConf.Key() marshals the message).
+type universe struct {
+	name   string
+	prefix func(r *hx.Rng) string
+	path   func(r *hx.Rng) string
+	sweep  func() []string // nil: no exhaustive sweep
+}
 
-func genPath(r *hx.Rng, maxDepth int) string {
-	d := r.Range(1, maxDepth)
+func segPath(r *hx.Rng, segs []string, minDepth, maxDepth int, slashNum, slashDen int) string {
+	d := r.Range(minDepth, maxDepth)
 	var sb strings.Builder
 	for i := 0; i < d; i++ {
 		sb.WriteString("/")
 		sb.WriteString(r.PickStr(segs))
 	}
-	if r.Chance(1, 5) {
+	if d == 0 || r.Chance(slashNum, slashDen) {
 		sb.WriteString("/")
 	}
 	return sb.String()
 }
 
+func tokens(r *hx.Rng, toks []string, lo, hi int) string {
+	n := r.Range(lo, hi)
+	var sb strings.Builder
+	for i := 0; i < n; i++ {
+		sb.WriteString(r.PickStr(toks))
+	}
+	return sb.String()
+}
+
+// cut s at a random rune boundary (keeps at least one rune)
+func runeCut(r *hx.Rng, s string) string {
+	n := utf8.RuneCountInString(s)
+	if n <= 1 {
+		return s
+	}
+	k := r.Range(1, n)
+	i := 0
+	for j := 0; j < k; j++ {
+		_, w := utf8.DecodeRuneInString(s[i:])
+		i += w
+	}
+	return s[:i]
+}
+
+func allStrings(alpha []string, maxLen int) []string {
+	var out []string
+	var rec func(p string, d int)
+	rec = func(p string, d int) {
+		if d == 0 {
+			return
+		}
+		for _, a := range alpha {
+			out = append(out, p+a)
+			rec(p+a, d-1)
+		}
+	}
+	rec("", maxLen)
+	return out
+}
+
+var segsSmall = []string{"a", "b", "ab"}
+var segsReal = []string{"buckets", "b1", "b2", "b", "data", "hot", "h", "é", "èté", "日本", "a.b", "x-y", "tmp"}
+
+// '/'(47) and 'o'(111), 'a'(97) and '!'(33), 'A'(65) and the byte 1 mod 64 ... collide in ptrie's 64-bit child sets
+var toksCollide = []string{"/", "o", "a", "!", "A", ".", "n", "O"}
+var toksByte = []string{"/", "a", "b"}
+
+var universes = []universe{
+	{name: "seg3",
+		prefix: func(r *hx.Rng) string { return segPath(r, segsSmall, 0, 3, 1, 5) },
+		path:   func(r *hx.Rng) string { return segPath(r, segsSmall, 0, 4, 1, 5) },
+		sweep: func() []string {
+			var out []string
+			var all func(prefix string, d int)
+			all = func(prefix string, d int) {
+				if d == 0 {
+					return
+				}
+				for _, s := range segsSmall {
+					p := prefix + "/" + s
+					out = append(out, p)
+					all(p, d-1)
+				}
+			}
+			all("", 3)
+			return append(out, "/")
+		}},
+	{name: "bytes3", // DESIGN: all paths of length <= 5 over {/,a,b}
+		prefix: func(r *hx.Rng) string { return tokens(r, toksByte, 1, 4) },
+		path:   func(r *hx.Rng) string { return tokens(r, toksByte, 0, 6) },
+		sweep:  func() []string { return allStrings(toksByte, 5) }},
+	{name: "real",
+		prefix: func(r *hx.Rng) string {
+			p := segPath(r, segsReal, 0, 6, 1, 3)
+			if r.Chance(1, 4) {
+				p = runeCut(r, p) // a prefix that ends inside a name: /buckets/b matches /buckets/b1
+			}
+			return p
+		},
+		path: func(r *hx.Rng) string { return segPath(r, segsReal, 0, 8, 1, 6) }},
+	{name: "collide",
+		prefix: func(r *hx.Rng) string { return tokens(r, toksCollide, 1, 5) },
+		path:   func(r *hx.Rng) string { return tokens(r, toksCollide, 0, 8) }},
+}
+
+// ---------- confs ----------
 func genConf(r *hx.Rng, prefix string) *filer_pb.FilerConf_PathConf {
 	c := &filer_pb.FilerConf_PathConf{LocationPrefix: prefix}
-	if r.Chance(1, 2) {
+	switch r.Intn(12) {
+	case 0: // sets nothing
+		return c
+	case 1: // sets everything
 		c.Collection = r.PickStr([]string{"c1", "c2", "c3"})
+		c.Replication = r.PickStr([]string{"000", "001", "010", "100"})
+		c.Ttl = r.PickStr([]string{"1m", "2h", "3d"})
+		c.DiskType = r.PickStr([]string{"ssd", "hdd", "nvme"})
+		c.Fsync = true
+		c.VolumeGrowthCount = uint32(r.Range(1, 4))
+		c.ReadOnly = true
+		return c
+	}
+	if r.Chance(1, 2) {
+		c.Collection = r.PickStr([]string{"c1", "c2", "c3", "ç"})
 	}
 	if r.Chance(1, 2) {
 		c.Replication = r.PickStr([]string{"000", "001", "010", "100"})
@@ -37,89 +149,311 @@ func genConf(r *hx.Rng, prefix string) *filer_pb.FilerConf_PathConf {
 	if r.Chance(1, 2) {
 		c.Ttl = r.PickStr([]string{"1m", "2h", "3d"})
 	}
-	if r.Chance(1, 3) {
-		c.DiskType = r.PickStr([]string{"ssd", "hdd"})
+	if r.Chance(1, 2) {
+		c.DiskType = r.PickStr([]string{"ssd", "hdd", "nvme"})
 	}
-	c.Fsync = r.Chance(1, 4)
-	if r.Chance(1, 3) {
-		c.VolumeGrowthCount = uint32(r.Range(1, 4))
+	c.Fsync = r.Chance(1, 3)
+	if r.Chance(1, 2) {
+		c.VolumeGrowthCount = uint32(r.PickInt([]int{1, 2, 3, 4, 4294967295}))
 	}
-	c.ReadOnly = r.Chance(1, 5)
+	c.ReadOnly = r.Chance(1, 4)
 	return c
 }
 
+// ---------- Coq printers ----------
+func str(s string) string {
+	ok := true
+	for i := 0; i < len(s); i++ {
+		if s[i] < 0x20 || s[i] > 0x7e {
+			ok = false
+		}
+	}
+	if ok {
+		return hx.Str(s)
+	}
+	xs := make([]string, len(s))
+	for i := 0; i < len(s); i++ {
+		xs[i] = strconv.Itoa(int(s[i]))
+	}
+	return "(sb [" + strings.Join(xs, ";") + "]%N)"
+}
+
 func coqConf(c *filer_pb.FilerConf_PathConf) string {
-	return fmt.Sprintf("{| collection := %s; replication := %s; ttl := %s; disk_type := %s; fsync := %s; growth := %s; read_only := %s |}",
-		hx.Str(c.Collection), hx.Str(c.Replication), hx.Str(c.Ttl), hx.Str(c.DiskType),
+	return fmt.Sprintf("(C %s %s %s %s %s %s %s)",
+		str(c.Collection), str(c.Replication), str(c.Ttl), str(c.DiskType),
 		hx.Bool(c.Fsync), hx.N(uint64(c.VolumeGrowthCount)), hx.Bool(c.ReadOnly))
+}
+
+func coqRule(c *filer_pb.FilerConf_PathConf) string {
+	return hx.Pair(str(c.LocationPrefix), coqConf(c))
+}
+
+func coqRules(cs []*filer_pb.FilerConf_PathConf) string {
+	xs := make([]string, len(cs))
+	for i, c := range cs {
+		xs[i] = coqRule(c)
+	}
+	return hx.List(xs)
+}
+
+// ---------- one history ----------
+type hist struct {
+	fc               *filer.FilerConf
+	ops, impl, canon []string
+	present          []string
+	nontrivial       bool
+	out              *hx.Out
+}
+
+func newHist(out *hx.Out) *hist { return &hist{fc: filer.NewFilerConf(), out: out} }
+
+func (h *hist) rec(op, obs, canon, bucket string) {
+	h.ops = append(h.ops, op)
+	h.impl = append(h.impl, obs)
+	h.canon = append(h.canon, canon)
+	h.out.Count("op:"+bucket, 1)
+}
+
+// call runs f and classifies how it ended
+func call(f func() error) (obs string) {
+	defer func() {
+		if e := recover(); e != nil {
+			obs = "OPanic"
+		}
+	}()
+	if err := f(); err != nil {
+		return "OErr"
+	}
+	return "ODone"
+}
+
+func (h *hist) add(c *filer_pb.FilerConf_PathConf) {
+	obs := call(func() error { return h.fc.AddLocationConf(c) })
+	if obs == "ODone" {
+		h.present = append(h.present, c.LocationPrefix)
+	}
+	h.rec("Add "+str(c.LocationPrefix)+" "+coqConf(c), obs, "A"+c.String(), "add")
+	h.out.Count("obs:add:"+obs, 1)
+}
+
+func (h *hist) del(p string) {
+	obs := call(func() error { h.fc.DeleteLocationConf(p); return nil })
+	h.rec("Del "+str(p), obs, "D"+p, "del")
+}
+
+func (h *hist) match(p string) {
+	var got *filer_pb.FilerConf_PathConf
+	obs := call(func() error { got = h.fc.MatchStorageRule(p); return nil })
+	if obs == "ODone" {
+		obs = "OConf " + str(got.LocationPrefix) + " " + coqConf(got)
+		if got.Collection != "" || got.Replication != "" || got.Ttl != "" || got.DiskType != "" || got.Fsync || got.VolumeGrowthCount > 0 || got.ReadOnly {
+			h.nontrivial = true
+			h.out.Count("match:sets-a-field", 1)
+		}
+	}
+	h.rec("Match "+str(p), obs, "M"+p, "match")
+}
+
+func (h *hist) load(cs []*filer_pb.FilerConf_PathConf) {
+	var buf bytes.Buffer
+	m := jsonpb.Marshaler{EmitDefaults: false, Indent: " "}
+	hx.Must(m.Marshal(&buf, &filer_pb.FilerConf{Version: 1, Locations: cs}))
+	obs := call(func() error { return h.fc.LoadFromBytes(buf.Bytes()) })
+	for _, c := range cs {
+		if c.LocationPrefix != "" {
+			h.present = append(h.present, c.LocationPrefix)
+		}
+	}
+	h.rec("Load "+coqRules(cs), obs, "L"+buf.String(), "load")
+	h.out.Count("obs:load:"+obs, 1)
+}
+
+func (h *hist) reload() {
+	var buf bytes.Buffer
+	fresh := filer.NewFilerConf()
+	obs := call(func() error {
+		if err := h.fc.ToText(&buf); err != nil {
+			return err
+		}
+		return fresh.LoadFromBytes(buf.Bytes())
+	})
+	h.fc = fresh
+	h.rec("Reload", obs, "R", "reload")
+}
+
+func (h *hist) loadBad(text string) {
+	obs := call(func() error { return h.fc.LoadFromBytes([]byte(text)) })
+	h.rec("LoadBad", obs, "B"+text, "loadbad")
+}
+
+func (h *hist) dump() {
+	var ls []*filer_pb.FilerConf_PathConf
+	obs := call(func() error { ls = h.fc.ToProto().Locations; return nil })
+	if obs == "ODone" {
+		obs = "ORules " + coqRules(ls)
+	}
+	h.rec("Dump", obs, "P", "dump")
+	h.out.Count(fmt.Sprintf("dump:rules:%d", len(ls)), 1)
+}
+
+func (h *hist) emit(kind string) {
+	term := fmt.Sprintf("{| ops := %s; impl := %s |}", hx.List(h.ops), hx.List(h.impl))
+	h.out.Add(term, strings.Join(h.canon, ";"), h.nontrivial, kind)
+}
+
+func pc(prefix, coll, repl, ttl, disk string, fsync bool, growth uint32, ro bool) *filer_pb.FilerConf_PathConf {
+	return &filer_pb.FilerConf_PathConf{LocationPrefix: prefix, Collection: coll, Replication: repl, Ttl: ttl, DiskType: disk, Fsync: fsync, VolumeGrowthCount: growth, ReadOnly: ro}
+}
+
+// deterministic first cases (independent of the seed)
+func fixedCases(out *hx.Out) {
+	// 0: finding 0 — an empty location prefix panics (AddLocationConf and LoadFromBytes)
+	h := newHist(out)
+	h.add(pc("/a", "c1", "", "", "", false, 0, false))
+	h.add(pc("", "c2", "", "", "", false, 0, false))
+	h.match("/a/x")
+	h.load([]*filer_pb.FilerConf_PathConf{pc("/b", "c3", "", "", "", false, 0, false), pc("", "c2", "", "", "", false, 0, false), pc("/c", "c1", "", "", "", false, 0, false)})
+	h.match("/b/x")
+	h.match("/c/x")
+	h.match("")
+	h.dump()
+	h.emit("fixed:empty-prefix")
+	// 1: witness of the repaired ptrie key aliasing in DeleteLocationConf
+	h = newHist(out)
+	h.add(pc("/ab/a", "c1", "", "", "", false, 0, false))
+	h.add(pc("/ab/ab/ab", "c2", "", "", "", false, 0, false))
+	h.add(pc("/a/ab", "c3", "", "", "", false, 0, false))
+	h.del("/ab/a")
+	h.match("/ab/a/b/a/")
+	h.match("/a/ab/x")
+	h.match("/ab/ab/ab")
+	h.dump()
+	h.emit("fixed:delete-aliasing")
+	// 2: nested rules that all set every field with different values; longest wins per field
+	h = newHist(out)
+	h.add(pc("/", "c0", "000", "1m", "hdd", false, 1, false))
+	h.add(pc("/data/", "c1", "001", "2h", "hdd", true, 2, false))
+	h.add(pc("/data/hot/", "c2", "010", "3d", "ssd", false, 3, true))
+	h.add(pc("/data/hot/tmp/", "", "", "", "nvme", false, 0, false))
+	for _, p := range []string{"/", "/x", "/data", "/data/", "/data/a.txt", "/data/hot", "/data/hot/a.txt", "/data/hot/tmp/a.txt", "/data/hotter", "data/hot/"} {
+		h.match(p)
+	}
+	h.del("/data/hot/")
+	for _, p := range []string{"/data/hot/a.txt", "/data/hot/tmp/a.txt"} {
+		h.match(p)
+	}
+	h.del("/")
+	for _, p := range []string{"/", "/x", "/data/hot/tmp/a.txt"} {
+		h.match(p)
+	}
+	h.dump()
+	h.emit("fixed:nested")
+	// 3: replace, then delete; delete of an absent prefix; reload in between
+	h = newHist(out)
+	h.add(pc("/buckets/", "", "001", "", "", false, 0, false))
+	h.add(pc("/buckets/b", "c1", "", "1m", "", false, 0, false))
+	h.add(pc("/buckets/b", "c2", "", "", "ssd", true, 0, false))
+	h.match("/buckets/b1/k")
+	h.reload()
+	h.match("/buckets/b1/k")
+	h.dump()
+	h.del("/buckets/b")
+	h.match("/buckets/b1/k")
+	h.del("/buckets/zzz")
+	h.del("/buckets")
+	h.match("/buckets/b1/k")
+	h.loadBad("{\"locations\": [")
+	h.reload()
+	h.match("/buckets/b1/k")
+	h.dump()
+	h.emit("fixed:replace-delete-reload")
 }
 
 func main() {
 	out := hx.Flags("C23", 400)
-	out.Rule = "random histories of Add/Del/Match over prefixes built from segments {a,b,ab} (depth<=3, optional trailing slash) with partially filled confs; every 4th case ends with a Match of every path of depth<=3; non-trivial = a Match whose implementation answer sets at least one field; distinct = canonical op list"
+	out.Rule = "cases 0-3 fixed (empty-prefix panic = finding 0; repaired delete aliasing; nested rules setting every field; replace/delete/reload). Random histories of Add/Del/Match/Load/Reload/LoadBad/Dump over one of four universes per case: seg3 (segments {a,b,ab}, depth 0..3, root rule /), bytes3 (arbitrary strings over {/,a,b}, prefixes <=4 bytes), real (13 names incl. UTF-8, depth 0..6, prefixes cut inside a name), collide (bytes equal mod 64); confs partially filled, empty or full; match paths mostly extend a stored prefix; every 6th case of seg3/bytes3 ends with a Match of EVERY path (depth<=3 resp. all 363 strings of length<=5 over {/,a,b}); empty prefix with probability ~1/50 per case; non-trivial = some Match answer sets a field; distinct = canonical op list"
+	fixedCases(out)
 	root := hx.NewRng(out.Seed)
-	for i := 0; i < out.N; i++ {
+	for i := out.Len(); i < out.N; i++ {
 		r := root.Fork()
-		fc := filer.NewFilerConf()
-		nops := r.Range(2, 14)
-		var ops, impl, canon []string
-		present := []string{}
-		nontrivial := false
-		doMatch := func(p string) {
-			got := fc.MatchStorageRule(p)
-			ops = append(ops, "Match "+hx.Str(p))
-			impl = append(impl, hx.Some(coqConf(got)))
-			canon = append(canon, "M"+p)
-			if got.Collection != "" || got.Replication != "" || got.Ttl != "" || got.DiskType != "" || got.Fsync || got.VolumeGrowthCount > 0 || got.ReadOnly {
-				nontrivial = true
-			}
-		}
+		u := universes[r.Intn(len(universes))]
+		out.Count("universe:"+u.name, 1)
+		h := newHist(out)
+		nops := r.Range(3, 18)
+		emptyCase := r.Chance(1, 50)
 		for j := 0; j < nops; j++ {
-			switch k := r.Intn(10); {
-			case k < 4:
-				p := genPath(r, 3)
-				c := genConf(r, p)
-				hx.Must(fc.AddLocationConf(c))
-				present = append(present, p)
-				ops = append(ops, "Add "+hx.Str(p)+" "+coqConf(c))
-				impl = append(impl, "None")
-				canon = append(canon, "A"+p+"="+c.String())
-				out.Count("op:add", 1)
-			case k < 6:
+			switch k := r.Intn(100); {
+			case k < 34:
+				p := u.prefix(r)
+				if emptyCase && r.Chance(1, 4) {
+					p = ""
+				} else if len(h.present) > 0 && r.Chance(1, 6) {
+					p = r.PickStr(h.present) // replace
+				}
+				h.add(genConf(r, p))
+			case k < 48:
 				var p string
-				if len(present) > 0 && r.Chance(3, 4) {
-					p = r.PickStr(present)
+				if len(h.present) > 0 && r.Chance(3, 4) {
+					p = r.PickStr(h.present)
 				} else {
-					p = genPath(r, 3)
+					p = u.prefix(r)
 				}
-				fc.DeleteLocationConf(p)
-				ops = append(ops, "Del "+hx.Str(p))
-				impl = append(impl, "None")
-				canon = append(canon, "D"+p)
-				out.Count("op:del", 1)
+				h.del(p)
+			case k < 84:
+				var p string
+				if len(h.present) > 0 && r.Chance(3, 5) {
+					p = r.PickStr(h.present)
+					switch r.Intn(4) {
+					case 0:
+					case 1:
+						p = runeCut(r, p)
+					default:
+						q := u.path(r)
+						if strings.HasSuffix(p, "/") {
+							q = strings.TrimPrefix(q, "/")
+						}
+						p += q
+					}
+				} else {
+					p = u.path(r)
+				}
+				h.match(p)
+			case k < 89:
+				n := r.Range(1, 4)
+				var cs []*filer_pb.FilerConf_PathConf
+				for x := 0; x < n; x++ {
+					p := u.prefix(r)
+					if emptyCase && r.Chance(1, 4) {
+						p = ""
+					}
+					cs = append(cs, genConf(r, p))
+				}
+				h.load(cs)
+			case k < 93:
+				h.reload()
+			case k < 94:
+				h.loadBad(r.PickStr([]string{"", "{", "{\"locations\": 3}", "[]", "{\"locations\":[{\"fsync\":\"maybe\"}]}"}))
 			default:
-				doMatch(genPath(r, 4))
-				out.Count("op:match", 1)
+				h.dump()
 			}
 		}
-		if i%4 == 0 {
-			// sweep: every path of depth <= 3
-			var all func(prefix string, d int)
-			all = func(prefix string, d int) {
-				if d == 0 {
-					return
-				}
-				for _, s := range segs {
-					p := prefix + "/" + s
-					doMatch(p)
-					out.Count("op:match", 1)
-					all(p, d-1)
+		kind := "history:" + u.name
+		if u.sweep != nil && i%6 == 0 {
+			for _, p := range u.sweep() {
+				h.match(p)
+			}
+			kind += ":sweep"
+		} else {
+			ps := append([]string{}, h.present...)
+			sort.Strings(ps)
+			for _, p := range ps {
+				if p != "" && r.Chance(1, 2) {
+					h.match(p + "/zz")
 				}
 			}
-			all("", 3)
 		}
-		term := fmt.Sprintf("{| ops := %s; impl := %s |}", hx.List(ops), hx.List(impl))
-		out.Add(term, strings.Join(canon, ";"), nontrivial, "history")
+		h.dump()
+		h.emit(kind)
 	}
 	out.Write()
 }
